@@ -80,6 +80,11 @@ func (StreamingCRLFileReader) ReadCRL(crlProcessor CRLProcessor, crlFilePath str
 	if err != nil {
 		return nil, err
 	}
+	//the certificate list has to end where its length says, the length is not covered by the signature
+	certificateListEnd, err := calculateEndPosition(reader, certificateListTL)
+	if err != nil {
+		return nil, err
+	}
 
 	strategies, err := signatureverify.LookupHashAndVerifyStrategies(*algorithmIdentifier)
 	if err != nil {
@@ -173,6 +178,9 @@ func (StreamingCRLFileReader) ReadCRL(crlProcessor CRLProcessor, crlFilePath str
 	signatureBitString, err := asn1parser.ParseBitString(&reader)
 	if err != nil {
 		return nil, err
+	}
+	if reader.Position() != certificateListEnd {
+		return nil, fmt.Errorf("the length of the certificate list does not match its content: it ends at %d, its length says %d", reader.Position(), certificateListEnd)
 	}
 
 	return &CRLReadResult{
